@@ -334,12 +334,13 @@ func isIntish(t *flow.Term) bool {
 // prover holds the facts available at one program point.
 type prover struct {
 	facts []*lin
+	preds []*flow.Term
 }
 
 func newProver(preds []*flow.Term) *prover {
-	p := &prover{}
+	p := &prover{preds: preds}
 	for _, t := range preds {
-		p.facts = append(p.facts, factLins(t)...)
+		p.facts = append(p.facts, factLins(p.resolve(t))...)
 	}
 	return p
 }
@@ -445,7 +446,29 @@ func arms(t *flow.Term) []*flow.Term {
 	return nil
 }
 
+// resolve replaces every conditional value whose condition the facts decide
+// by the arm they select (a helper's result under the caller's test of its
+// found flag).
+func (p *prover) resolve(t *flow.Term) *flow.Term {
+	if len(p.preds) == 0 || !t.Contains(func(x *flow.Term) bool { return x.Op == flow.OpIte }) {
+		return t
+	}
+	return flow.Subst(t, func(x *flow.Term) *flow.Term {
+		if x.Op != flow.OpIte || len(x.Args) != 3 {
+			return nil
+		}
+		if v, known := truthFromFacts(x.Args[0], p.preds); known {
+			if v {
+				return p.resolve(x.Args[1])
+			}
+			return p.resolve(x.Args[2])
+		}
+		return nil
+	})
+}
+
 func (p *prover) proveLess(a, b *flow.Term) bool {
+	a, b = p.resolve(a), p.resolve(b)
 	{
 		g := linOf(a)
 		g.add(linOf(b), -1)
@@ -477,6 +500,7 @@ func (p *prover) proveLess(a, b *flow.Term) bool {
 }
 
 func (p *prover) proveLeq(a, b *flow.Term) bool {
+	a, b = p.resolve(a), p.resolve(b)
 	{
 		g := linOf(a)
 		g.add(linOf(b), -1)
